@@ -212,6 +212,9 @@ func loadRegistry(e *Env, mirror string) ([]*exInfo, error) {
 			for _, s := range testLiterals(dir) {
 				cands[s] = true
 			}
+			for _, s := range extraPaths {
+				cands[s] = true
+			}
 			seen := map[string]bool{}
 			for c := range cands {
 				p, ok := cleanRel(c)
@@ -240,6 +243,9 @@ func loadRegistry(e *Env, mirror string) ([]*exInfo, error) {
 	}
 	return out, nil
 }
+
+// extraPaths are production file names no test literal mentions (the tests call Extract directly).
+var extraPaths = []string{"renv.lock", "project/renv.lock"}
 
 func pickPaths(inf *exInfo, n int) []string {
 	out := []string{}
